@@ -653,6 +653,38 @@ def fixed_cases(thorough: bool = False):
                         if fld == "count":
                             q = [x for x in q if x[1] != "2"]
                         out.append(plain("single", "bbb", name, mode, q + ([["depth", "20"]] if mode == "live" else [])))
+    # option names / enum values in unusual spellings (capitalised, upper case, padded with blanks, trailing
+    # comma) together with an out-of-range value of an option that depends on them
+    def spell(v):
+        return [v.capitalize(), v.upper(), f" {v} ", v + ","]
+    for name, mode in (("hand_made.mpd", "live"), ("hand_made.mpd", "vod"), ("manifest_n.mpd", "live"), ("manifest_n.mpd", "vod")):
+        for ev in ("ping", "scte35"):
+            for sp in spell(ev) + [f"{ev}, {ev.upper()}"]:
+                for dep in ([f"{ev}__start", "-5"], [f"{ev}__duration", "-3"], [f"{ev}__timescale", "-1"],
+                            [f"{ev}__count", "10001"], [f"{ev}__version", "7"]):
+                    k += 1
+                    if not thorough and k % 2:
+                        continue
+                    out.append(plain("single", "bbb", name, mode, [["events", sp], [f"{ev}__inband", "0"], [f"{ev}__count", "2"]]
+                                     + [dep] + ([["depth", "20"]] if mode == "live" else []))
+                               if dep[0] != f"{ev}__count" else
+                               plain("single", "bbb", name, mode, [["events", sp], [f"{ev}__inband", "0"], dep]
+                                     + ([["depth", "20"]] if mode == "live" else [])))
+    for name, mft in W.manifests().items():
+        for mode in mft["modes"]:
+            vecs = []
+            if "drmSelection" in mft["features"]:
+                vecs += [[["drm", sp], ["playready__version", "9.0"]] for sp in spell("playready") + spell("all")]
+                vecs += [[["drm", sp], ["clearkey__la_url", "<&>"]] for sp in spell("clearkey")]
+            if "audioCodec" in mft["features"]:
+                vecs += [[["acodec", sp], ["main_audio", "<none>"]] for sp in spell("mp4a") + spell("any")]
+            if mode == "live" and "utcMethod" in mft["features"]:
+                vecs += [[["time", sp], ["drift", "-7"], ["ntp_servers", "a<b"]] for sp in spell("ntp") + spell("xsd") + spell("direct")]
+            vecs += [[["mode", sp], ["depth", "-5"]] for sp in spell(mode)]
+            for i, v in enumerate(vecs):
+                if not thorough and (i + len(name)) % 3:
+                    continue
+                out.append(plain("single", "bbb", name, mode, v + ([["depth", "20"]] if mode == "live" and not any(x[0] == "depth" for x in v) else [])))
     # clocks far from today, and the clock on a loop boundary of the media after 0 ... 10^5 loops
     far = ["0100-01-01T00:00:03.500000Z", "1479-06-30T23:59:59.750000Z", "1900-03-01T00:00:07Z", "1970-01-01T00:01:00.500000Z",
            "2036-02-07T06:28:16.250000Z", "2038-01-19T03:14:08Z", "2040-02-06T06:28:16.999999Z", "2100-03-01T00:00:00.999999Z",
